@@ -239,12 +239,14 @@ PROPS["C13"] = {
   "assumptions": ["each LoadBalancer method holds its mutex from first to last statement (checked by reading: one lock() per method)"],
 }
 PROPS["C17"] = {
-  "units": ["backoff"],
+  "units": ["backoff", "connecter"],
   "kani_quick": [], "kani_thorough": [],
   "claim": "Back-off arithmetic only, proved for ALL (attempts: u32, RECONNECT_IVL, RECONNECT_IVL_MAX) on the verbatim ReconnectState: the delay equals min(base * 2^min(attempts,31) saturating, max if set); "
            "the first delay is RECONNECT_IVL, consecutive delays never shrink and at most double (lemma_backoff_geometric), never exceed RECONNECT_IVL_MAX when set; attempts count up saturating, success resets; "
-           "no overflow or panic for option values the parsers can produce (parse_reconnect_ivl{,_max}_option proved to yield at most i32::MAX ms).",
-  "level_note": "Failure isolation across connections and 'traffic resumes once the peer is reachable' are fault-sequence/system properties: not covered. The call sites in async event handlers pass option values or small defaults (read, not under contract).",
+           "no overflow or panic for option values the parsers can produce (parse_reconnect_ivl{,_max}_option proved to yield at most i32::MAX ms). "
+           "Failure locality of the retry sleep (TcpConnecter::wait_for_retry_delay_internal, select! desugared by R12): the connecter gives up only for the termination of its context, the closing of its OWN parent socket or a failed event bus; "
+           "an event that concerns another socket of the same context never ends the retry loop.",
+  "level_note": "Failure isolation across connections in the socket core's event handlers and 'traffic resumes once the peer is reachable' are fault-sequence/system properties: not covered; the zero-delay branch of the retry sleep is outside the contract (a zero RECONNECT_IVL cannot come out of the option parser). The call sites in async event handlers pass option values or small defaults (read, not under contract).",
   "technique": "contract-based deductive verification (Verus; durations as nanoseconds, nonlinear-arithmetic lemmas)",
   "trusted_base": ["prelude/time.rs: Duration/Instant as nanoseconds; saturating_mul clamps at Duration::MAX; Instant + Duration panics beyond the platform range (precondition)", "ASSUMPTION: the monotonic clock reads below half of its representable range"],
   "assumptions": ["machine arithmetic modelled exactly"],
